@@ -7,7 +7,7 @@ for l in open('/verif/properties.jsonl'):
     if p['id'] == pid: break
 print(f"""You are testing how robust a Go project is to subtle regressions. The project is bmeg/grip, a graph query server (GripQL traversals over KV stores, MongoDB, Elasticsearch, SQL). A scratch git worktree of the repository is at /tmp/mut/{pid} (detached HEAD of /repo). Work ONLY inside /tmp/mut/{pid} and /tmp/mut/out/{pid}. Never modify /repo. Never read, list or write anything under /verif (it is off limits for this task). The sandbox is offline: in EVERY shell call first run
   export GOFLAGS=-mod=mod GOPROXY=off GOSUMDB=off GOTOOLCHAIN=local; unset GOWORK
-and never try to download anything.
+and never try to download anything. Do NOT use `git stash` (the stash is shared between worktrees of other people working in parallel); to undo a change use `git checkout -- .` and `git clean -fdq` inside your own worktree only.
 
 PROPERTY (id {pid}): {p['title']}
 Statement: {p['statement']}
@@ -15,7 +15,7 @@ It must hold for: {p['quantifier']['text']}
 Code mainly involved: {', '.join(p['anchors']['files'])}
 
 YOUR TASK: produce {n} DIFFERENT realistic source changes (each an independent patch against HEAD) to the non-test Go code of bmeg/grip such that each change BREAKS the property above while:
- (a) the repository still compiles:  cd /tmp/mut/{pid} && go build ./...
+ (a) the repository still compiles:  cd /tmp/mut/{pid} && go build ./...   (three plugin packages under endpoints/ already fail to link with 'function main is undeclared' at HEAD - ignore exactly those)
  (b) the existing test suite still passes exactly as before the change. Run it with
        cd /tmp/mut/{pid} && go test -mod=mod -vet=off -count=1 -timeout 25m ./... 2>&1 | tail -60
      (takes ~1-2 minutes the first time). NOTE these 4 tests fail already at HEAD and must be ignored: endpoints/cypher/test TestMatch1, gripql TestGraphToJSON, jsonpath TestSelectFields, util TestBatchGraphValidation; test/server TestBasicAuthFail is flaky. Every other test must still pass with your change.
